@@ -47,6 +47,7 @@ type World struct {
 	mbn              map[*ssa.Function][]*ssa.Return
 	mbnBusy          map[*ssa.Function]bool
 	pinned           map[*ssa.Function]ssa.CallInstruction
+	ifaceByMethod    map[string][]*types.Interface
 	idxSums          map[*ssa.Function]*idxSummary
 	frameBody        map[*ssa.Function]*ssa.Function
 	recBusy          map[ssa.Value]bool
